@@ -81,6 +81,9 @@ func VH_C20_handleConn() {
 		_, isIdErr := err.(IdentityError)
 		vAssert(isIdErr, "H-mismatch-ends-the-connection-handler")
 		vAssert(r.term == t0 && r.votedFor == v0, "H-mismatching-peer-cannot-touch-term-or-vote")
+		// the end of a refused connection is not the disconnect of a peer: the state loop clears its leader when the
+		// leader's id is reported disconnected, which switches the leader-known vote refusal off
+		vAssert(len(r.disconnected) == 0, "H-refused-dialer-is-not-reported-as-a-disconnected-peer")
 	}
 	vAssert(served >= 1, "identity-request-reached-raft")
 	vReach("end")
